@@ -66,6 +66,8 @@ type dagHarness struct {
 	foldRuns  int
 	lastFold  int
 	lastMark  int64
+	// foldInvariant renames fold violations for properties that use the fold as part of their own oracle
+	foldInvariant string
 }
 
 func newDagHarness(s *simkit.Sim, rc *simkit.RunCtx) *dagHarness {
@@ -105,6 +107,8 @@ func (h *dagHarness) node() *world.Node { return h.w.Nodes[h.name] }
 func (h *dagHarness) offerTx(task string, t *world.CTx) *offer {
 	n := h.node()
 	o := &offer{T: t, Task: task, Start: h.s.Steps, Gen: n.Inc.Gen}
+	f0 := totalFaults(h.s)
+	defer func() { o.FaultsAt = totalFaults(h.s) - f0 }()
 	tx := t.Tx
 	if tx == nil {
 		// bytes that do not parse cannot be offered to the DAG: rejected at the parser
@@ -116,6 +120,7 @@ func (h *dagHarness) offerTx(task string, t *world.CTx) *offer {
 			h.record(o)
 			return o
 		}
+		t.Tx = tx
 	}
 	o.Parsed = true
 	o.Err = n.State().Add(context.Background(), tx, t.Payload)
@@ -172,7 +177,11 @@ func (h *dagHarness) foldAtQuiescence() {
 	h.lastFold = h.s.Steps
 	h.foldRuns++
 	if _, v := world.CheckFoldLight(n.State()); v != nil {
-		h.s.Fail(v.Invariant, "quiescent", "%s (step %d)", v.Msg, h.s.Steps)
+		inv, site := v.Invariant, "quiescent"
+		if h.foldInvariant != "" {
+			inv, site = h.foldInvariant, "quiescent:"+v.Invariant
+		}
+		h.s.Fail(inv, site, "%s (step %d)", v.Msg, h.s.Steps)
 	}
 }
 
@@ -205,3 +214,11 @@ func (h *dagHarness) finish() {
 }
 
 var _ = time.Second
+
+func totalFaults(s *simkit.Sim) int {
+	n := 0
+	for _, v := range s.Faults.Map() {
+		n += v
+	}
+	return n
+}
